@@ -25,7 +25,9 @@ ASSUMPTIONS = [
     "attributes limit accuracy (rtol 5e-4)",
     "FlowFields.exp is modelled as repaired by the fix: commit in /repo (known_findings.json, fixed entry)",
 ]
-TRUSTED = ["Model/FlowOps.lean hand transcription of data/flow.py FlowFields.axes/exp/warp_image and core/flow.py"]
+TRUSTED = ["Model/FlowOps.lean hand transcription of data/flow.py FlowFields.axes/exp/warp_image and core/flow.py",
+           "Model/Regularizers.lean normalizeFlow / denormalizeFlow: hand transcription of core/flow.py normalize_flow / "
+           "denormalize_flow (also re-translated from the source on every run, harness/gen/C10.lean.in)"]
 RTOL = 5e-4
 
 
@@ -143,6 +145,57 @@ def line_warp(c):
             f"{proto.vec(proto.flat(flow))}")
 
 
+# ---------------------------------------------------------------- stream: core normalize_flow / denormalize_flow
+def gen_normalize(rng: random.Random, tier: str):
+    for _ in range(_n(tier, 40, 1000)):
+        d = rng.choice([2, 3])
+        shape = [rng.choice([1, 2, 2, 3, 4, 5]) if rng.random() < 0.25 else rng.randint(2, 5) for _ in range(d)]
+        yield {"d": d, "shape": shape, "ac": rng.random() < 0.5, "denorm": rng.random() < 0.5,
+               "side": rng.choice([None, 2, 1, 1, 0.5, 3]), "size_arg": rng.choice(["none", "tuple", "tensor", "grid"]),
+               "channels_last": rng.random() < 0.4, "dtype": rng.choice(["float32", "float64", "float64"]),
+               "seed": rng.randrange(1 << 30)}
+
+
+def _normalize_data(c):
+    return random_field(c["seed"], c["d"], c["shape"], 1.5).unsqueeze(0).to(getattr(torch, c["dtype"]))    # (1, D, …, X)
+
+
+def impl_normalize(c):
+    data = _normalize_data(c)
+    kw = {"align_corners": c["ac"]}
+    size = tuple(reversed(c["shape"]))
+    if c["size_arg"] == "tuple":
+        kw["size"] = torch.Size(size)
+    elif c["size_arg"] == "tensor":
+        kw["size"] = torch.tensor(size)
+    elif c["size_arg"] == "grid":
+        kw["size"] = Grid(shape=c["shape"]).size()
+    if c["side"] is not None:
+        kw["side_length"] = c["side"]
+    fn = U.denormalize_flow if c["denorm"] else U.normalize_flow
+    before = data.clone()
+    if c["channels_last"]:
+        if c["size_arg"] == "none":
+            kw["size"] = torch.Size(size)      # the default size is only defined for channels-first data
+        out = fn(data.movedim(1, -1), channels_last=True, **kw).movedim(-1, 1)
+    else:
+        out = fn(data, **kw)
+    if not torch.equal(before, data):
+        return "err:input-mutated"
+    if out.shape != data.shape or out.dtype != data.dtype:
+        return f"err:shape-or-dtype {tuple(out.shape)} {out.dtype}"
+    return proto.flat(out[0].movedim(0, -1))        # channels last: one vector per lattice point
+
+
+def line_normalize(c):
+    data = _normalize_data(c)
+    side = 2 if c["side"] is None else c["side"]
+    size = " ".join(str(n) for n in reversed(c["shape"]))
+    vals = proto.flat(data[0].movedim(0, -1))
+    return (f"flow.normalize {c['d']} {1 if c['ac'] else 0} {1 if c['denorm'] else 0} {proto.fr(side)} {size} "
+            f"{len(vals) // c['d']} {proto.vec(vals)}")
+
+
 STREAMS = PRIM_STREAMS + [
     Stream("flow.axes", gen_axes, impl_axes, line_axes, cmp_values(RTOL),
            nontrivial=lambda c: gen.grid_nontrivial(c["grid"]) and c["a"] != c["b"],
@@ -152,6 +205,10 @@ STREAMS = PRIM_STREAMS + [
            doc="FlowFields/FlowField.exp (steps 0..3, scales) for inputs in each of the 4 representations vs the model"),
     Stream("flow.warp_image", gen_warp, impl_warp, line_warp, cmp_values(1e-9),
            doc="core.flow.warp_image(data, grid, flow) on the own lattice, both conventions and paddings"),
+    Stream("flow.normalize", gen_normalize, impl_normalize, line_normalize, cmp_values(1e-5),
+           nontrivial=lambda c: min(c["shape"]) >= 2,
+           doc="core.flow.normalize_flow / denormalize_flow: both conventions, side lengths, size given as Size / tensor / "
+               "grid.size() / derived from the data, channels first or last, axes with a single sample"),
 ]
 
 
@@ -284,12 +341,65 @@ def check_world_affine(c):
     return None
 
 
+def gen_twins(rng: random.Random, tier: str):
+    for _ in range(_n(tier, 30, 600, 100)):
+        d = rng.choice([2, 3])
+        yield {"grid": small_grid(rng, d, 2, 6), "seed": rng.randrange(1 << 30), "ac": rng.random() < 0.5,
+               "side": rng.choice([2, 2, 1, 0.5, 4]), "dtype": rng.choice(["float32", "float64"])}
+
+
+def check_twins(c):
+    """core.flow.normalize_flow / denormalize_flow are the GRID <-> cube conversion of the property: invertible, equal to the
+    grid's own vector map (Grid.transform_vectors) for the matching convention, and the same for every way of passing the
+    size and the channel layout"""
+    g = gen.make_grid(c["grid"])
+    ac, side = c["ac"], c["side"]
+    cube = Axes.CUBE_CORNERS if ac else Axes.CUBE
+    v = field_for(g, c["seed"], 1.2).to(getattr(torch, c["dtype"])).unsqueeze(0)       # (1, D, …, X), GRID units
+    tol = 1e-5 * max(1.0, float(v.abs().max())) * (1 if c["dtype"] == "float64" else 20)
+    nv = U.normalize_flow(v, size=g.size(), side_length=side, align_corners=ac)
+    back = U.denormalize_flow(nv, size=g.size(), side_length=side, align_corners=ac)
+    if (back - v).abs().max() > tol:
+        return (f"C10:normalize_flow:invertible:ac={ac}", f"denormalize(normalize(v)) differs by {(back - v).abs().max():.3e}")
+    fwd = U.normalize_flow(U.denormalize_flow(v, size=g.size(), side_length=side, align_corners=ac), size=g.size(),
+                           side_length=side, align_corners=ac)
+    if (fwd - v).abs().max() > tol:
+        return (f"C10:normalize_flow:invertible-rev:ac={ac}", f"normalize(denormalize(v)) differs by {(fwd - v).abs().max():.3e}")
+    want = g.transform_vectors(v[0].movedim(0, -1).double(), Axes.GRID, cube).movedim(-1, 0) * (side / 2)
+    if (nv[0].double() - want).abs().max() > tol:
+        return (f"C10:normalize_flow:grid-vector-map:ac={ac}",
+                f"normalize_flow differs from Grid.transform_vectors(GRID->{cube.value}) by {(nv[0].double() - want).abs().max():.3e}")
+    want = g.transform_vectors(v[0].movedim(0, -1).double(), cube, Axes.GRID).movedim(-1, 0) / (side / 2)
+    dv = U.denormalize_flow(v, size=g.size(), side_length=side, align_corners=ac)
+    if (dv[0].double() - want).abs().max() > tol * max(g.size()):
+        return (f"C10:denormalize_flow:grid-vector-map:ac={ac}",
+                f"denormalize_flow differs from Grid.transform_vectors({cube.value}->GRID) by {(dv[0].double() - want).abs().max():.3e}")
+    # the FlowFields method and the functional twin agree
+    ff = FlowFields(v.float(), g, Axes.GRID).axes(cube).tensor()
+    if (ff.double() * (side / 2) - nv.double()).abs().max() > max(tol, RTOL * float(nv.abs().max())):
+        return (f"C10:normalize_flow:method-twin:ac={ac}", "FlowFields.axes(GRID->cube) differs from normalize_flow")
+    # every documented way of calling it gives the same vectors
+    for fn, ref, nm in ((U.normalize_flow, nv, "normalize_flow"), (U.denormalize_flow, dv, "denormalize_flow")):
+        forms = {
+            "size=None": fn(v, side_length=side, align_corners=ac),
+            "size=tensor": fn(v, size=torch.tensor(g.size()), side_length=side, align_corners=ac),
+            "channels_last": fn(v.movedim(1, -1), size=g.size(), side_length=side, align_corners=ac, channels_last=True).movedim(-1, 1),
+        }
+        for form, out in forms.items():
+            if out.shape != ref.shape or (out - ref).abs().max() > tol * max(g.size()):
+                return (f"C10:{nm}:call-form:{form}", f"differs from the size=grid.size() call by {(out - ref).abs().max():.3e}")
+    return None
+
+
 ORACLES = [
     Oracle("repr", gen_repr, check_repr, nontrivial=lambda c: gen.grid_nontrivial(c["grids"][0]),
            doc="axes invertible / path independent / grid vector map; exp, warp_image, sample agree in world space "
                "between any two representations; batches with shared or per-field grids"),
     Oracle("world_affine", gen_world_affine, check_world_affine,
            doc="a world-affine field resampled on another grid stays the same world-affine field, any representation"),
+    Oracle("normalize_twins", gen_twins, check_twins, nontrivial=lambda c: gen.grid_nontrivial(c["grid"]),
+           doc="core.flow.normalize_flow / denormalize_flow: mutually inverse, equal to Grid.transform_vectors GRID<->cube of the "
+               "matching convention and to FlowFields.axes, same result for every size / channel-layout call form"),
 ]
 
 
